@@ -26,15 +26,35 @@ Proof. exact msorted_ext. Qed.
 Print Assumptions C15_store_determined_by_contents.
 
 (* A reader keeps the map it was opened on whatever happens afterwards (batches, other readers opened or
-   closed); every answer it gives is a function of that map. *)
+   closed, the lower-level store of a persisting configuration catching up = OpSync) as long as the store
+   itself stays open; every answer it gives is a function of that map. *)
 Theorem C15_reader_isolated :
   forall (pol : policy) (mo : merge_op) (os : list sop) (st st' : sstate) (rid : Z) (snap : kvmap),
     reader_view st rid = Some snap ->
-    Forall (fun o => o <> OpOpen rid /\ o <> OpClose rid) os ->
+    Forall (fun o => o <> OpOpen rid /\ o <> OpClose rid /\ o <> OpReopen) os ->
     store_run pol mo st os = Some st' ->
     reader_view st' rid = Some snap.
 Proof. exact reader_isolated. Qed.
 Print Assumptions C15_reader_isolated.
+
+(* Persistence is not an operation of the map: with readers opened / closed, flushes to the lower-level
+   store (OpSync) and close + reopen over the same lower-level store (OpReopen) interleaved at will, the
+   store's map is the batches applied in order (to which C15_batch_atomic_refines applies), and a reader
+   opened after any of it sees exactly that. *)
+Theorem C15_store_map_is_batches :
+  forall (pol : policy) (mo : merge_op) (os : list sop) (st st' : sstate),
+    store_run pol mo st os = Some st' ->
+    exec_batches pol mo (st_map st) (batches_of os) = Some (st_map st').
+Proof. exact store_map_is_batches. Qed.
+Print Assumptions C15_store_map_is_batches.
+
+Theorem C15_reader_after_persist :
+  forall (pol : policy) (mo : merge_op) (os : list sop) (st st1 st2 : sstate) (rid : Z),
+    store_run pol mo st os = Some st1 ->
+    store_step pol mo st1 (OpOpen rid) = Some st2 ->
+    exists m, exec_batches pol mo (st_map st) (batches_of os) = Some m /\ reader_view st2 rid = Some m.
+Proof. exact reader_after_persist. Qed.
+Print Assumptions C15_reader_after_persist.
 
 Theorem C15_reader_sees_map_at_creation :
   forall (pol : policy) (mo : merge_op) (st : sstate) (rid : Z) (st' : sstate),
